@@ -124,6 +124,36 @@ Definition same_state (a b : pset) : bool :=
   subsetN (reserved a) (reserved b) && subsetN (reserved b) (reserved a) &&
   msgs_eqb (msgs a) (msgs b).
 
+(* the answer of the sortedPeers action (the model mirrors only its length): exactly the connected
+   peers, each once, by non-increasing reputation (ties in any order: sort.Slice is not stable and
+   the input order is a map iteration) *)
+Fixpoint nodupN (l : list N) : bool :=
+  match l with [] => true | x :: r => negb (memN x r) && nodupN r end.
+Fixpoint nonincreasing (l : list Z) : bool :=
+  match l with
+  | x :: ((y :: _) as r) => (y <=? x) && nonincreasing r
+  | _ => true
+  end.
+Definition sorted_ok (s : pset) (l : list N) : bool :=
+  nodupN l && subsetN l (connected_set s) && subsetN (connected_set s) l &&
+  nonincreasing (map (rep_of s) l).
+
+(* one observed step re-evaluated (vm_compute cross-check of the extraction, and the driver's
+   membership test): the observed error (None = not observable, handler harness) and state are
+   among the model's possible results *)
+Definition err_code (e : option err) : N :=
+  match e with
+  | None => 0 | Some ErrPeerDoesNotExist => 1 | Some ErrPeerDisconnected => 2
+  | Some ErrOutgoingSlotsUnavailable => 3 | Some ErrIncomingSlotsUnavailable => 4
+  | Some ErrDisconnectNonConnected => 5
+  end%N.
+Definition vm_step (s0 : pset) (k : N) (o : op) (e : option (option err)) (s1 : pset) : bool :=
+  existsb (fun r => match r with
+                    | Ret e' s' => (match e with None => true | Some e0 => N.eqb (err_code e') (err_code e0) end)
+                                   && same_state s' s1
+                    | _ => false
+                    end) (step fixed s0 k o).
+
 (* ---------------------------------------------------------------- histories *)
 (* [reachable v s0 h s]: s is a possible state after the operations h (each with the seconds
    elapsed before it), for some resolution of the map-iteration choices *)
